@@ -1,7 +1,9 @@
 #![allow(dead_code)]
+pub mod atomic_diff;
 pub mod checks;
 pub mod common;
 pub mod drive;
 pub mod explore;
+pub mod fam_atomic;
 pub mod fam_lock;
 pub mod prog;
